@@ -15,7 +15,7 @@ class C05(PureCheck):
     pid = "C05"
     warm_every = 4
     rule = ("round trip: the attribute records of C01 (quick: all 5,184 without explicit False + sampled False variants; "
-            "thorough: all 59,049) with texts containing newline/tab/CR/wide/combining characters, plus multi-run values; "
+            "thorough: all 59,049) with texts containing newline/tab/CR/wide/combining characters, plus multi-run values, plus every C0 (without ESC) / DEL / C1 (without CSI) control character first, inside and last in a run next to escape sequences; "
             "grammar: every string of <=3 (quick) / <=4 (thorough) items over {a, b, newline} u {ESC[p m : p in the 23 "
             "supported codes} u {ESC[m}, plus sampled combined-parameter sequences (1..3 parameters, and long ones of 8..200 parameters); parsed with "
             "FmtStr.from_str and fmtstr alternately; result run lists validated by TLC against the stream terminal run over "
@@ -67,6 +67,15 @@ class C05(PureCheck):
         for nruns in (400, 1200, 3000):
             runs = [[enc.enc_text("ab"[j % 2]), [1 + j % 3, 0, 2 * (j % 2), 0, 0, 0, 0, 0]] for j in range(nruns)]
             yield {"op": "roundtrip", "runs": runs}
+        # every other control character (C0 without ESC, DEL, C1 without CSI) as the first, a middle and the last
+        # character of a run - right after and right before the escape sequences of its own and of the neighbouring runs
+        ctl = [c for c in range(0, 32) if c != 27] + [127] + [c for c in range(128, 160) if c != 155]
+        for c in ctl:
+            for text in ([c, 97], [97, c], [c], [c, c], [97, c, 98]):
+                a = [1 + c % 8, 0, 2 * (c % 2), 0, 0, 0, 0, 0]
+                yield {"op": "roundtrip", "runs": [[list(text), a]]}
+                yield {"op": "roundtrip", "runs": [[[120], a], [list(text), [0] * 8], [[121], [0, 2, 0, 0, 0, 2, 0, 0]]]}
+            yield {"op": "parse", "s": [97, 27, 91, 49, 59, 51, 49, 109, c, 98, 27, 91, 109, c, 99, c, 27, 91, 52, 109, 100], "via": c % 2}
         # grammar strings
         depth = 3 if tier == "quick" else 4
         k = 0
